@@ -22,7 +22,9 @@ OWN = {
 
 def owned(prop, rejs):
     rx = re.compile(OWN[prop])
-    return [r for r in rejs if rx.search(r[1])]
+    # C01.genericMap (an unnamed map type comes back as a generic map) is the recorded finding of C01 alone:
+    # the other properties that look at round trips do not speak about the dynamic type of maps
+    return [r for r in rejs if rx.search(r[1]) and (prop == "C01" or r[1] != "C01.genericMap")]
 
 
 def codec_stage(run, tmp, hx, known, name, fam, module="TraceCodec", selftest=True):
